@@ -17,10 +17,17 @@ func c17Shapes(quick bool) []Shape {
 	if !quick {
 		maxOps = 3
 	}
+	plainData := false
 	mk := func(name string, paths []string, inFunc bool) Shape {
+		plain := plainData
 		return Shape{Name: name, Prog: func(c *gosym.Ctx) *Program {
 			n := c.Choose("len", 1, 2)
-			v := SymStr(c, "v", n, printableNoBackquote+"\n\t")
+			alphabet := printableNoBackquote + "\n\t"
+			if plain {
+				// the shape is about paths: one byte of harmless content
+				n, alphabet = 1, neutral
+			}
+			v := SymStr(c, "v", n, alphabet)
 			w := SymStr(c, "w", 1, neutral)
 			k := c.Choose("ops", 1, maxOps)
 			body := []Stmt{Def("s", StrLit{Val: v, Raw: true}), Def("t", SR(w))}
@@ -58,6 +65,15 @@ func c17Shapes(quick bool) []Shape {
 	sh = append(sh, mk("history-two-files", []string{"a.txt", "b.txt"}, false))
 	sh = append(sh, mk("history-in-function", []string{"a.txt", "b.txt"}, true))
 	sh = append(sh, mk("history-blank-in-path", []string{"my file.txt"}, false))
+	// names next to a written path (what a temporary, backup or lock file of an implementation would be called): as a
+	// second path of the history, and as files that exist before the script runs and must still be there unchanged
+	plainData = true
+	sh = append(sh, mk("history-neighbour-names", []string{"a.txt", "a.txt.tmp"}, false))
+	nb := mk("history-next-to-existing-neighbours", []string{"a.txt", "a"}, false)
+	nbFiles := map[string]string{"a.txt.tmp": "keep 1\n", "a.txt~": "keep 2\n", "a.txt.bak": "keep 3\n", ".a.txt.swp": "keep 4\n", "a.tmp": "keep 5\n", "a.txt.lock": "keep 6\n", "tmp": "keep 7\n"}
+	nb.Pre = nbFiles
+	sh = append(sh, nb)
+	plainData = false
 	sh = append(sh, constShape("read-and-write-in-one-statement", Prog(
 		Fn("rotate", []ParamDecl{Pm("p", TString), Pm("s", TString)}, []Type{TString}, WriteS{Path: V("p"), Data: V("s")}, Ret(S("rotated"))),
 		Fn("note", []ParamDecl{Pm("p", TString), Pm("s", TString)}, []Type{TString}, WriteS{Path: V("p"), Data: V("s"), Append: T()}, Ret(S("noted"))),
